@@ -31,6 +31,9 @@ def run(ctx):
     from . import c03 as _c03
     ctx.rule('C08.MEMO', lambda: _c03.rule_memo(ctx, 'C08.MEMO'), 12)
     ctx.rule('C08.POSITIONAL', lambda: rule_positional(ctx), 2)
+    ctx.rule('C08.FIXPOINT', lambda: rule_fixpoint(ctx), 2)
+    from . import c04 as _c04f
+    ctx.rule('C08.LOGICALFILE', lambda: _c04f.rule_logical_file_stateless(ctx, 'C08'), 3)
     from . import c18 as _c18, c18x as _c18x
     from . import c09 as _c09
     ctx.rule('C08.HANDOVER', lambda: _c09.rule_refresh_handover(ctx, 'C08.HANDOVER'), 3)
@@ -329,3 +332,45 @@ def rule_fee(ctx):
     ctx.check(ok2, 'C08.FEE', ctx.key(f, src[0] if src else None, 'parent output'), 'an unconfirmed input takes (hashX, value) from its parent\'s output at that index',
               'an unconfirmed input is not resolved from txs[prev_hash].out_pairs[prev_index]', loc=ctx.loc(f, f.node))
     return 2
+
+
+def rule_fixpoint(ctx, rule='C08.FIXPOINT'):
+    '''After all fetch batches were merged, the deferred transactions are re-offered to _accept_transactions until a pass
+    makes no progress: a chain of unconfirmed transactions spread over several batches resolves one generation per pass.
+    And no refresh is skipped on a guess that nothing changed: apart from the DBSyncError guard, every path through
+    _process_mempool passes the removal loop and the computation of the new hashes.'''
+    f = ctx.func('mp', 'MemPool._process_mempool')
+    cfg = ctx.cfg(f)
+    n = 0
+    merges = [s for s in f.own_nodes() if isinstance(s, ast.AsyncFor)]
+    acc = ctx.func('mp', 'MemPool._accept_transactions')
+    loops = [w for w in f.own_nodes() if isinstance(w, ast.While) and q.calls_resolving_to(ctx, f, acc)
+             and any(q.in_body(c, w.body) for c in q.calls_resolving_to(ctx, f, acc))]
+    ok, why = False, 'the merged deferred transactions are not re-offered in a loop'
+    if len(loops) == 1 and merges:
+        w = loops[0]
+        call = [c for c in q.calls_resolving_to(ctx, f, acc) if q.in_body(c, w.body)][0]
+        st = q.stmt(call)
+        # loop carried: the call's first two arguments are re-bound from its result
+        carried = isinstance(st, ast.Assign) and isinstance(st.targets[0], ast.Tuple) and \
+            [norm(e) for e in st.targets[0].elts] == [norm(a) for a in call.args[:2]]
+        mv = norm(call.args[0])
+        # exits: only when nothing is left or a pass made no progress (size unchanged)
+        conj = [norm(x) for x in pr.conjuncts(w.test)]
+        progress = mv in conj and any(f'len({mv})' in c and '!=' in c for c in conj)
+        after_merge = w.lineno > merges[0].lineno and not q.in_body(w, merges[0].body)
+        ok = carried and progress and after_merge
+        why = f'loop `while {norm(w.test)}` carried={carried} progress-test={progress} after the merge={after_merge}'
+    ctx.check(ok, rule, ctx.key(f, loops[0] if loops else None, 'deferred transactions accepted to a fix-point'),
+              'after the batches were merged, deferred transactions are re-offered until a pass accepts nothing more',
+              why + ': descendants whose ancestors arrived in another batch (or a later generation) are dropped although the refresh was quiet',
+              loc=ctx.loc(f, loops[0] if loops else f.node))
+    n += 1
+    rets = [r for r in f.own_nodes() if isinstance(r, ast.Return)]
+    early = [r for r in rets if r is not f.node.body[-1]]
+    ctx.check(not early and len(rets) == 1, rule, ctx.key(f, None, 'no refresh skipped'),
+              'the only way through _process_mempool without processing the listing is the DBSyncError guard',
+              'an early return skips the refresh: ' + '; '.join(f'line {r.lineno} under {[norm(t) for t, b, _p in pr.control_conditions(r, f.node)]}' for r in early[:2]) +
+              ' - a listing of the same size (one eviction, one arrival) or any other guessed "no change" leaves the view stale',
+              loc=ctx.loc(f, early[0] if early else f.node))
+    return n + 1
